@@ -31,7 +31,7 @@ def merge(*maps):
 def crc_specs(tier):
     s = [KSpec("O07.1 crc table", CRC + "c07_o1_table", "all 256 entries (unwind 258)", "Crc32::new() builds the CRC-32C table", timeout=900)]
     for n in range(0, 6):
-        if tier == "quick" and n in (3, 5):
+        if n == 5 or (tier == "quick" and n == 3):
             continue
         s.append(KSpec("O07.2 crc len %d" % n, CRC + "c07_o2_calc_len%d" % n, "all byte strings of length %d" % n,
                        "Crc32::calculate == bit-serial CRC-32C", timeout=1800))
@@ -46,9 +46,6 @@ def reader_small_specs(tier):
         return []      # ~13 min of CBMC; the real-page-size obligations (mirsym) cover the same claims in quick
     s = [KSpec("O07.3 read ps=8", PR + "c07_o3_read_ps8", "page size 8, 3 pages, all device contents, 1 earlier op + 1 checked op",
                "read returns only bytes of CRC-valid pages, Err iff page invalid, cache cleared on Err, INV-reader kept", timeout=1800)]
-    if tier == "thorough":
-        s.append(KSpec("O07.3 read ps=12", PR + "c07_o3_read_ps12", "page size 12, 2 pages, all device contents",
-                       "as ps=8", timeout=3000))
     return s
 
 
